@@ -374,7 +374,7 @@ func dumpGenerated(dir string) (map[string][]string, error) {
 }
 
 // line alphabet: letters and combining marks only, as the property states.
-var lineAlphabet = []string{"", "a", "bc", "\u00e9", "e\u0301", "\u7684", "\u3042\u3044\u3053\u304f\u3057\u3093", "\u1100\u1161", "\U00020000\U0001b000"}
+var lineAlphabet = []string{"", "a", "bc", "\u00e9", "e\u0301", "\u7684", "\u3042\u3044\u3053\u304f\u3057\u3093", "\u1100\u1161", "\U00020000\U0001b000", "\uf900\uff76\ufb01"}
 
 func buildGeneratorTool() string {
 	tool := filepath.Join(scratch, "update-wordlist")
@@ -748,7 +748,7 @@ func runC17(tier string) int {
 		os.RemoveAll(dir)
 	}
 	r.Distinct = int64(len(distinctLists))
-	r.Rule = fmt.Sprintf("the real update-wordlist binary (built from the current tree with -tags verif) is run with its HTTP fetches redirected to a loopback server owned by the check; enumerated inputs: every file of <=%d lines over the line alphabet %+q (blank line, ASCII, precomposed and decomposed accents, Han, kana, conjoining jamo, letters beyond U+FFFF), with and without trailing LF, ten pairwise different files per tool run assigned to the ten targets by rotation (thorough: every file to every target), plus the size ladder 1/2047/2048/2049/5000/20000/100000 lines, files with words of 4095...2^20+1 letters and the ten canonical lists (with and without trailing LF). Oracle: tool exits 0, each of the ten expected URLs requested, each generated file parses and its variable holds exactly the non-empty input lines byte for byte in order (read from the []string literal, or, when the list is written in another representation, by compiling the generated package and printing its variables); canonical run reproduces the committed lists and compiles with go build; delivery patterns: the canonical and three-word lists arriving in flushed pieces of 1/7/1000/4096 resp. 1/2/5 bytes; transport faults: the transfer of one target (thorough: also of two) gets no answer at all or breaks off after 0, 1, half or all but one of the announced bytes (three-word lists: every third offset, thorough every offset) or the output path of one target cannot be opened (a directory sits there), and only a non-zero exit status or ten faithful files are acceptable; regeneration histories: every ordered pair of six input shapes (canonical, 0/1/3/2048/5000 words) as two runs in the same directory, the second run judged by the same oracle. distinct_nontrivial = distinct input files", maxLines, lineAlphabet)
+	r.Rule = fmt.Sprintf("the real update-wordlist binary (built from the current tree with -tags verif) is run with its HTTP fetches redirected to a loopback server owned by the check; enumerated inputs: every file of <=%d lines over the line alphabet %+q (blank line, ASCII, precomposed and decomposed accents, Han, kana, conjoining jamo, letters beyond U+FFFF, letters of U+F900..U+FFFF whose first byte is the byte-order mark's 0xEF), with and without trailing LF, ten pairwise different files per tool run assigned to the ten targets by rotation (thorough: every file to every target), plus the size ladder 1/2047/2048/2049/5000/20000/100000 lines, files with words of 4095...2^20+1 letters and the ten canonical lists (with and without trailing LF). Oracle: tool exits 0, each of the ten expected URLs requested, each generated file parses and its variable holds exactly the non-empty input lines byte for byte in order (read from the []string literal, or, when the list is written in another representation, by compiling the generated package and printing its variables); canonical run reproduces the committed lists and compiles with go build; delivery patterns: the canonical and three-word lists arriving in flushed pieces of 1/7/1000/4096 resp. 1/2/5 bytes; transport faults: the transfer of one target (thorough: also of two) gets no answer at all or breaks off after 0, 1, half or all but one of the announced bytes (three-word lists: every third offset, thorough every offset) or the output path of one target cannot be opened (a directory sits there), and only a non-zero exit status or ten faithful files are acceptable; regeneration histories: every ordered pair of six input shapes (canonical, 0/1/3/2048/5000 words) as two runs in the same directory, the second run judged by the same oracle. distinct_nontrivial = distinct input files", maxLines, lineAlphabet)
 	r.Extra["enumerated_files"] = nEnumerated
 	r.Extra["tool_runs"] = len(batches) + 1
 	r.Samples = append(r.Samples, map[string]interface{}{"input": "a\n\n\u00e9\nbc", "expected_list": []string{"a", "\u00e9", "bc"}}, map[string]interface{}{"input": batches[len(batches)/2].desc})
